@@ -875,6 +875,55 @@ pub fn stress_shapes(thorough: bool) -> Vec<(String, Vec<u8>)> {
         b.extend(frame_bytes(&[pal, simple_layer(0, LayerKind::Image, 1), image_cel(0, wd, ht, px, Some(9))], 1));
         v.push((format!("bomb-cel-indexed-{}-index", name), b));
     }
+    // user data with the newer "has properties" bit and a property whose value nests 300000 deep: vectors of
+    // vectors (element type given per vector), vectors of mixed elements, and maps of maps (ignored today)
+    for (name, kind) in [("vectors", 0u8), ("mixed-vectors", 1), ("maps", 2)] {
+        let depth = 300_000usize;
+        let mut body: Vec<u8> = vec![];
+        body.extend_from_slice(&1u32.to_le_bytes()); // number of property maps
+        body.extend_from_slice(&0u32.to_le_bytes()); // map key
+        body.extend_from_slice(&1u32.to_le_bytes()); // number of properties
+        body.extend_from_slice(&1u16.to_le_bytes());
+        body.push(b'v');
+        match kind {
+            0 => {
+                body.extend_from_slice(&0x0011u16.to_le_bytes());
+                for _ in 0..depth {
+                    body.extend_from_slice(&1u32.to_le_bytes());
+                    body.extend_from_slice(&0x0011u16.to_le_bytes());
+                }
+                body.extend_from_slice(&0u32.to_le_bytes());
+                body.extend_from_slice(&0x0001u16.to_le_bytes());
+            }
+            1 => {
+                body.extend_from_slice(&0x0011u16.to_le_bytes());
+                for _ in 0..depth {
+                    body.extend_from_slice(&1u32.to_le_bytes());
+                    body.extend_from_slice(&0u16.to_le_bytes());
+                    body.extend_from_slice(&0x0011u16.to_le_bytes());
+                }
+                body.extend_from_slice(&0u32.to_le_bytes());
+                body.extend_from_slice(&0x0001u16.to_le_bytes());
+            }
+            _ => {
+                body.extend_from_slice(&0x0012u16.to_le_bytes());
+                for _ in 0..depth {
+                    body.extend_from_slice(&1u32.to_le_bytes());
+                    body.extend_from_slice(&1u16.to_le_bytes());
+                    body.push(b'm');
+                    body.extend_from_slice(&0x0012u16.to_le_bytes());
+                }
+                body.extend_from_slice(&0u32.to_le_bytes());
+            }
+        }
+        let mut w = W::new(0x2020);
+        w.u32(Kind::Flags, "ud_flags", 4);
+        w.u32(Kind::Size, "ud_props_size", body.len() as u32 + 4);
+        w.bytes(Kind::Payload, "ud_props", &body);
+        let mut b = header_bytes(1, 2, 2, 32);
+        b.extend(frame_bytes(&[simple_layer(0, LayerKind::Image, 1), chunk(w)], 1));
+        v.push((format!("user-data-properties-nested-{}-x300000", name), b));
+    }
     // two cel chunks for the same frame and layer that are not adjacent in the file (image + image, image + link,
     // link + image), with another layer's cel in between
     for (name, first_link, second_link) in [("image-image", false, false), ("image-link", false, true), ("link-image", true, false)] {
